@@ -13,7 +13,6 @@ import (
 	"os"
 	"reflect"
 	"runtime"
-	"sort"
 	"strings"
 
 	"github.com/grailbio/bigslice"
@@ -199,24 +198,35 @@ func emptyCol(elem reflect.Type) interface{} {
 	return reflect.MakeSlice(reflect.SliceOf(elem), 0, 0).Interface()
 }
 
-func buildSlices() {
+// buildSlices constructs the input slices.  A slice whose construction panics
+// (possible only if the code under test is broken) is left out and reported;
+// the constructor cases themselves then show the breakage.
+func buildSlices() (notes []string) {
 	for _, d := range sliceDefs {
-		colv := make([]interface{}, len(d.cols))
-		for i, c := range d.cols {
-			colv[i] = emptyCol(typeByName(c))
-		}
-		s := bigslice.Const(d.nshard, colv...)
-		if d.prefix > 1 {
-			s = bigslice.Prefixed(s, d.prefix)
-		}
-		switch d.via {
-		case "map1":
-			s = bigslice.Map(s, mkFunc(Sig{Ins: d.cols, Outs: []string{"string"}}))
-		case "scan":
-			s = bigslice.Scan(s, func(int, *sliceio.Scanner) error { return nil })
-		}
-		slices[d.name] = s
+		func() {
+			defer func() {
+				if r := recover(); r != nil {
+					notes = append(notes, fmt.Sprintf("input slice %s could not be built: %v", d.name, r))
+				}
+			}()
+			colv := make([]interface{}, len(d.cols))
+			for i, c := range d.cols {
+				colv[i] = emptyCol(typeByName(c))
+			}
+			s := bigslice.Const(d.nshard, colv...)
+			if d.prefix > 1 {
+				s = bigslice.Prefixed(s, d.prefix)
+			}
+			switch d.via {
+			case "map1":
+				s = bigslice.Map(s, mkFunc(Sig{Ins: d.cols, Outs: []string{"string"}}))
+			case "scan":
+				s = bigslice.Scan(s, func(int, *sliceio.Scanner) error { return nil })
+			}
+			slices[d.name] = s
+		}()
 	}
+	return notes
 }
 
 // stypeOf reads the type of a real slice back; a panicking Out(i) cannot happen
@@ -513,6 +523,8 @@ type Desc struct {
 	Cols   []string `json:"cols,omitempty"` // Const: dynamic types of the column values
 	V      string   `json:"v,omitempty"`    // Q facts
 	T      string   `json:"t,omitempty"`
+	Params []string `json:"params,omitempty"` // Invocation: parameter types of the bigslice.Func
+	Args   []string `json:"args,omitempty"`   // Invocation: dynamic types of the arguments, "nil" = untyped nil
 }
 
 var thisFile = func() string { _, f, _, _ := runtime.Caller(0); return f }()
@@ -640,6 +652,23 @@ func runCtor(d Desc) (callTerm string, res result) {
 		callTerm = vf.App("CCogroup", vf.List(sts))
 		line = here() + 1
 		out = bigslice.Cogroup(ss...)
+	case "invocation":
+		fv := funcValueFor(d.Params)
+		argv := make([]interface{}, len(d.Args))
+		argt := make([]string, len(d.Args))
+		for i, a := range d.Args {
+			if a == "nil" {
+				argt[i] = "None"
+				continue
+			}
+			t := typeByName(a)
+			argv[i] = reflect.Zero(t).Interface() // a is never an interface type: see invocationDescs
+			argt[i] = vf.Some(coqTy(t))
+		}
+		callTerm = vf.App("CInvocation", coqTys(typesByName(d.Params)), vf.List(argt))
+		line = here() + 1
+		fv.Invocation("c18", argv...)
+		return callTerm, result{obs: "OOk", class: "accept"}
 	case "assignable":
 		v, t := typeByName(d.V), typeByName(d.T)
 		return vf.App("QAssignable", coqTy(v), coqTy(t)),
@@ -654,6 +683,22 @@ func runCtor(d Desc) (callTerm string, res result) {
 		panic("c18: unknown constructor " + d.Ctor)
 	}
 	return callTerm, result{obs: vf.App("OAccept", stypeOf(out)), class: "accept", note: bigslice.String(out)}
+}
+
+// funcValues memoises one registered bigslice.Func per parameter list.
+var funcValues = map[string]*bigslice.FuncValue{}
+
+func funcValueFor(params []string) *bigslice.FuncValue {
+	k := strings.Join(params, ",")
+	if fv, ok := funcValues[k]; ok {
+		return fv
+	}
+	t := reflect.FuncOf(typesByName(params), []reflect.Type{reflect.TypeOf((*bigslice.Slice)(nil)).Elem()}, false)
+	fv := bigslice.Func(reflect.MakeFunc(t, func([]reflect.Value) []reflect.Value {
+		return []reflect.Value{reflect.ValueOf(slices["i"])}
+	}).Interface())
+	funcValues[k] = fv
+	return fv
 }
 
 // sigOf names the finding a case belongs to if it is judged a violation.
@@ -687,10 +732,55 @@ func sigOf(d Desc) string {
 	return "ctor:" + d.Ctor
 }
 
+// invocationDescs: for each parameter list, the exact arguments, every single
+// position replaced by each candidate (other concrete types, implementers and
+// non-implementers of the interfaces, untyped nil), and wrong arities.
+func invocationDescs() []Desc {
+	paramLists := [][]string{{}, {"int"}, {"int", "string"}, {"Stringer"}, {"any"}, {"*point"}, {"[]int"}, {"error"},
+		{"int", "Stringer", "*point"}, {"myInt"}, {"func()"}, {"point"}, {"int", "any"}, {"ctx", "int"}, {"unit", "[]uint8"}}
+	exact := map[string]string{"Stringer": "point", "any": "int", "error": "*myErr", "ctx": "nil"}
+	cands := []string{"nil", "int", "string", "point", "*point", "*myErr", "myErr", "myInt", "[]int", "func()", "unit", "[]uint8"}
+	var ds []Desc
+	seen := map[string]bool{}
+	add := func(ps, as []string) {
+		k := strings.Join(ps, ",") + "|" + strings.Join(as, ",")
+		if !seen[k] {
+			seen[k] = true
+			ds = append(ds, Desc{Ctor: "invocation", Params: ps, Args: append([]string{}, as...)})
+		}
+	}
+	for _, ps := range paramLists {
+		base := make([]string, len(ps))
+		for i, p := range ps {
+			base[i] = p
+			if e, ok := exact[p]; ok {
+				base[i] = e
+			}
+		}
+		add(ps, base)
+		for i := range ps {
+			for _, c := range cands {
+				as := append([]string{}, base...)
+				as[i] = c
+				add(ps, as)
+			}
+		}
+		add(ps, append(append([]string{}, base...), "int"))
+		add(ps, append(append([]string{}, base...), "nil"))
+		if len(base) > 0 {
+			add(ps, base[:len(base)-1])
+			add(ps, []string{})
+		}
+	}
+	return ds
+}
+
 func allDescs() (must, pool []Desc) {
-	names := make([]string, len(sliceDefs))
-	for i, d := range sliceDefs {
-		names[i] = d.name
+	var names []string
+	for _, d := range sliceDefs {
+		if _, ok := slices[d.name]; ok {
+			names = append(names, d.name)
+		}
 	}
 	cross := func(ctor string, sigs []Sig) {
 		for _, n := range names {
@@ -707,13 +797,13 @@ func allDescs() (must, pool []Desc) {
 	cross("reduce", reduceSigs())
 	cross("repartition", repartitionSigs())
 	cross("writerfunc", writerSigs())
+	// everything below is small and always run in full
 	for _, n := range []int{1, 4} {
 		for _, g := range readerSigs() {
 			g := g
-			pool = append(pool, Desc{Ctor: "readerfunc", N: n, Fn: &g})
+			must = append(must, Desc{Ctor: "readerfunc", N: n, Fn: &g})
 		}
 	}
-	// everything below is small and always run in full
 	for _, n := range []int{-1, 0, 1, 3} {
 		for _, c := range constColumns {
 			must = append(must, Desc{Ctor: "const", N: n, Cols: c})
@@ -738,11 +828,20 @@ func allDescs() (must, pool []Desc) {
 		}
 	}
 	must = append(must, Desc{Ctor: "cogroup"})
+	must = append(must, invocationDescs()...)
 	triples := [][]string{{"i", "i.s", "i.ppoint"}, {"i.s/2", "i.s/2", "i.s/2"}, {"s.i.i", "s.i.i/2", "s.i.i"},
 		{"i", "i", "f.i"}, {"i", "i.ints", "i.s"}, {"s.i.i/2", "s.i.i/2", "s.i.i/3"}, {"i.s", "scan(i)", "i"},
 		{"i", "map1(i.s/2)", "i"}, {"keyStr.i", "keyStr.i", "keyStr.i"}, {"i.s", "i", "myInt.i"}}
 	for _, t := range triples {
-		must = append(must, Desc{Ctor: "cogroup", Slices: t})
+		ok := true
+		for _, n := range t {
+			if _, have := slices[n]; !have {
+				ok = false
+			}
+		}
+		if ok {
+			must = append(must, Desc{Ctor: "cogroup", Slices: t})
+		}
 	}
 	for _, t := range elemTypes {
 		must = append(must, Desc{Ctor: "canhash", T: t}, Desc{Ctor: "cancompare", T: t})
@@ -761,55 +860,85 @@ func main() {
 		Rule: "real constructors over (input slice) x (generated function signature); non-trivial = the argument " +
 			"is a function type (passes slicefunc.Of) or the constructor takes no function; distinct by call term",
 		Extra: map[string]interface{}{}}
-	buildSlices()
+	out.Notes = buildSlices()
 	var descs []Desc
 	if opts.Replay != "" {
 		if err := vf.LoadReplay(opts.Replay, &descs); err != nil {
 			fmt.Fprintln(os.Stderr, err)
 			os.Exit(2)
 		}
-	} else {
-		must, pool := allDescs()
-		descs = must
-		if opts.Tier == "thorough" {
-			descs = append(descs, pool...)
-			out.Extra["exhaustive"] = true
-		} else {
-			// a seeded sample of the big cross products; the small ones are complete
-			n := 2600 * opts.Scale
-			if n >= len(pool) {
-				descs = append(descs, pool...)
-				out.Extra["exhaustive"] = true
-			} else {
-				r := vf.NewRand(opts.Seed)
-				idx := make([]int, len(pool))
-				for i := range idx {
-					idx[i] = i
-				}
-				for i := 0; i < n; i++ {
-					j := i + r.Intn(len(idx)-i)
-					idx[i], idx[j] = idx[j], idx[i]
-				}
-				pick := idx[:n]
-				sort.Ints(pick)
-				for _, i := range pick {
-					descs = append(descs, pool[i])
-				}
-				out.Extra["exhaustive"] = false
-			}
-		}
-		out.Extra["cross_product_size"] = len(must) + len(pool)
+	}
+	type ran struct {
+		d    Desc
+		call string
+		res  result
 	}
 	classes := map[string]int{}
-	for _, d := range descs {
-		call, res := runCtor(d)
+	emit := func(x ran) {
 		nontriv := ""
-		if res.class != "fact" && (d.Fn == nil || d.Fn.NonFunc == "") {
-			nontriv = vf.Hash(call)
+		if x.res.class != "fact" && (x.d.Fn == nil || x.d.Fn.NonFunc == "") {
+			nontriv = vf.Hash(x.call)
 		}
-		classes[res.class]++
-		out.Add(vf.Case{Term: vf.Tuple(call, res.obs), Desc: d, Sig: sigOf(d), Nontriv: nontriv,
-			Kind: d.Ctor + "/" + res.class, Observed: map[string]string{"class": res.class, "note": res.note}})
+		classes[x.res.class]++
+		out.Add(vf.Case{Term: vf.Tuple(x.call, x.res.obs), Desc: x.d, Sig: sigOf(x.d), Nontriv: nontriv,
+			Kind: x.d.Ctor + "/" + x.res.class, Observed: map[string]string{"class": x.res.class, "note": x.res.note}})
+	}
+	runAll := func(ds []Desc) []ran {
+		rs := make([]ran, len(ds))
+		for i, d := range ds {
+			call, res := runCtor(d)
+			rs[i] = ran{d, call, res}
+		}
+		return rs
+	}
+	if opts.Replay != "" {
+		for _, x := range runAll(descs) {
+			emit(x)
+		}
+	} else {
+		// The whole cross product is always run on the implementation (cheap).  The
+		// thorough tier has Coq judge all of it.  The quick tier has Coq judge the
+		// small products in full, every call of the big products that was NOT
+		// rejected by a typecheck error, and a seeded sample of the rejected ones.
+		must, pool := allDescs()
+		for _, x := range runAll(must) {
+			emit(x)
+		}
+		rp := runAll(pool)
+		out.Extra["cross_product_size"] = len(must) + len(pool)
+		out.Extra["run_on_implementation"] = len(must) + len(pool)
+		if opts.Tier == "thorough" {
+			for _, x := range rp {
+				emit(x)
+			}
+			out.Extra["exhaustive"] = true
+		} else {
+			var rejected []int
+			keep := make([]bool, len(rp))
+			for i, x := range rp {
+				if x.res.class == "typeerr" {
+					rejected = append(rejected, i)
+				} else {
+					keep[i] = true
+				}
+			}
+			n := 1500 * opts.Scale
+			if n > len(rejected) {
+				n = len(rejected)
+			}
+			r := vf.NewRand(opts.Seed)
+			for i := 0; i < n; i++ {
+				j := i + r.Intn(len(rejected)-i)
+				rejected[i], rejected[j] = rejected[j], rejected[i]
+				keep[rejected[i]] = true
+			}
+			for i, x := range rp {
+				if keep[i] {
+					emit(x)
+				}
+			}
+			out.Extra["exhaustive"] = n == len(rejected)
+		}
 	}
 	out.Extra["classes"] = classes
 	out.Extra["slices"] = len(sliceDefs)
